@@ -87,8 +87,7 @@ theorem ingest_identity (U : Uni) (maxLen : Nat) (sym raw : Bytes) (hcr : (0x0d 
   have h1 : Ingest.removeCr U raw = .ok raw := by
     simp [Ingest.removeCr, Ingest.lastCr_none_of_not_mem raw hcr]
   have h2 := Ingest.not_truncates_of_small maxLen raw hlen
-  simp only [Ingest.ingest, h1, h2]
-  cases strip raw <;> rfl
+  cases hs : strip raw <;> simp [Ingest.ingest, h1, h2, hs, Except.map]
 
 /-- `ingest_cr_only_zero_width_tail`: when the line is not truncated and `raw_line` differs from
 the input, then exactly the last `\r` was removed, and what follows it has display width 0 (only
@@ -163,21 +162,13 @@ theorem ingest_crlf_remnant_benign (U : Uni) (hU : Additive U) (maxLen : Nat) (s
     intro x hx; rcases List.mem_append.mp hx with h | h
     · exact hwa x h
     · exact hwt x h
-  have e1 : tokBytes (ta ++ tt) = tokBytes ta ++ tokBytes tt := by
-    induction ta with
-    | nil => rfl
-    | cons y ys ih => simp [tokBytes, ih (fun x hx => hwa x (by simp [hx])) (by
-        intro x hx; rcases List.mem_append.mp hx with h | h
-        · exact hwa x (by simp [h])
-        · exact hwt x h)]
-  have e2 : plainOf (ta ++ tt) = plainOf ta ++ plainOf tt := by
-    clear hwa hwf e1 h1 hlen hle h2
-    induction ta with
-    | nil => rfl
-    | cons y ys ih => cases y <;> simp [plainOf, ih]
+  have e1 := Ingest.tokBytes_app ta tt
+  have e2 := Ingest.plainOf_app ta tt
   have h3 : strip (tokBytes ta ++ tokBytes tt) = .ok (plainOf ta ++ plainOf tt) := by
     rw [← e1, ← e2]; exact strip_tokens _ hwf
-  simp [Ingest.ingest, h1, h2, h3]
+  unfold Ingest.ingest
+  rw [h1]
+  simp [h2, h3]
 
 /-- Non-vacuity, with the small concrete Unicode oracle `demoUni`:
 `ab\r ESC[m` (CRLF remnant) loses its `\r`; `Fetching\r ESC[32m done ESC[m` (a progress line: text
